@@ -293,6 +293,13 @@ class DelayPeer(object):
                 verb = line.split(b' ')[0].strip().upper()
                 if verb == b'EHLO':
                     self.sock.sendall(b'250-peer\r\n250 PIPELINING\r\n' if case['pipelining'] else b'250 peer\r\n')
+                    if case.get('after_ehlo'):
+                        # something unsolicited right behind the greeting, on every connection: "421 too busy" and close, or a stray line
+                        gevent.sleep(0.003)
+                        if case['after_ehlo'] == '421':
+                            self.sock.sendall(b'421 4.3.2 too busy, closing\r\n')
+                            return
+                        self.sock.sendall(b'250 2.0.0 stray line\r\n')
                 elif verb == b'MAIL':
                     if in_tx:
                         # like a real server: nested MAIL is a protocol error (the previous transaction was never reset)
@@ -410,7 +417,7 @@ def run_b(case):
                     if case['faults'].get(tag) not in ('rcpt4xx', 'rcpt5xx', 'eod4xx'):
                         # a transient error without a scripted fault: only connection-level events may explain it
                         # (with a short command timeout also a slow exchange)
-                        if not (case.get('refuse') or case.get('cmd_t') or
+                        if not (case.get('refuse') or case.get('cmd_t') or case.get('after_ehlo') or
                                 any(v in ('then421', 'thenclose') for v in case['faults'].values())):
                             out.append(('C19:unexplained-failure', '%s: %s -> %r' % (desc, tag, rep.reply)))
                 elif tag not in (text or ''):
@@ -420,6 +427,8 @@ def run_b(case):
                     out.append(('C19:attempt-raised:%s' % type(res).__name__, '%s: %s: %r' % (desc, tag, res)))
                 elif [t for t in re.findall(r'\bm\d+\b', res.reply.message or '') if t != tag]:
                     out.append(('C19:result-of-another-envelope', '%s: attempt %s received %r' % (desc, tag, res.reply)))
+        if case.get('after_ehlo') and nconn[0] > 4 * n + 4:
+            out.append(('C19:reconnect-storm', '%s: %d connections were made for %d attempts' % (desc, nconn[0], n)))
         if case['size'] and DelayPeer.max_open > case['size']:
             out.append(('C19:pool-bound-exceeded', '%s: %d connections open at once with pool_size %d'
                         % (desc, DelayPeer.max_open, case['size'])))
@@ -613,6 +622,15 @@ def run_shard(ctx):
         ctx.record(repr(case), nt, labels=['tier=B', 'size=%s' % case['size']], case=case, failures=f)
     hyp.drive(ctx, case_b(), one_b, ctx.n(240, 4000), salt=1)
     hyp.drive(ctx, case_b_late_rset(), one_b, ctx.n(64, 800), salt=3)
+    k = 0
+    for after in ('421', 'stray'):
+        for size in (1, 2, None):
+            for n in (1, 3):
+                for pipelining in (True, False):
+                    k += 1
+                    if ctx.mine(k):
+                        one_b({'family': 'B', 'n': n, 'size': size, 'idle': 1.0, 'pipelining': pipelining, 'delay': 0.0, 'stagger': 0.0,
+                               'faults': {}, 'refuse': [], 'after_ehlo': after})
 
     def one_h(case):
         f, nt = run_http(case)
@@ -647,6 +665,8 @@ def replay(case):
             case['faults'] = dict((k, v) for k, v in case.get('faults', {}).items()
                                   if v in ('eod4xx', 'rcpt4xx', 'rcpt5xx', 'then421', 'thenclose'))
             if case.get('size') not in (1, 2, 3, None):
+                return []
+            if case.get('after_ehlo') not in (None, '421', 'stray'):
                 return []
             if case.get('cmd_t') is not None:
                 case['cmd_t'] = max(0.05, float(case['cmd_t']))
